@@ -521,6 +521,9 @@ class Bits:
             self._bitstore = BitStore.frombytes(s.getvalue())
         elif isinstance(s, _binary_file_types):
             if isinstance(getattr(s, 'name', None), (str, bytes, pathlib.PurePath)):
+                if s.writable():
+                    # The file is opened again by name, so anything still in the handle's write buffer must reach it first.
+                    s.flush()
                 self._setfile(s.name)
             else:
                 # Not a named file, so it can't be memory mapped. Read the data instead.
@@ -563,6 +566,8 @@ class Bits:
 
         if isinstance(s, _binary_file_types):
             if isinstance(getattr(s, 'name', None), (str, bytes, pathlib.PurePath)):
+                if s.writable():
+                    s.flush()
                 self._setfile(s.name, length, offset)
             else:
                 # Not a named file, so it can't be memory mapped. Read the data instead.
